@@ -191,7 +191,7 @@ func c02Judge(w *mon.W, c c02Case, full bool) {
 func c02Run(r *mon.Run) {
 	r.Rule("every (N1,N2,T) with N1+N2<=10 (thorough 14), T = nil, all-ones, every composition with >=2 parts; u on the half-integer grid -1..N1N2+1 plus 8 random reals; random large distributions up to 50+50 untied / 25+25 tied on 40 sampled grid points. Non-trivial: hits a class (K=2, leading tie group, tied non-palindromic, nil/all-ones T, feasibility edges); distinct by hash of (N1,N2,T,points).")
 	r.Assume("reference: subset enumeration (N<=14), 128-bit generating-function DP above, cross-checked at start-up")
-	r.Gate("recycled-T-buffer", "far-and-near-jump-points", "K=2", "leading-tie-group", "untied-u-above-centre", "untied-u-below-centre", "tied-u-below-feasible-min", "T=nil", "T=all-ones", "large-untied", "large-tied")
+	r.Gate("recycled-T-buffer", "far-and-near-jump-points", "K=2", "leading-tie-group", "untied-u-above-centre", "untied-u-below-centre", "tied-u-below-feasible-min", "T=nil", "T=all-ones", "large-untied", "large-tied", "tied-n-reaches-25", "permuted-tie-vector-same-sizes", "corner-of-the-stated-range", "U-test-limit-variables-changed", "three-groups-large")
 	if err := ref.USelfTest(r.Pick(8, 9)); err != nil {
 		r.Inconclusive("reference self-test failed: " + err.Error())
 		return
@@ -273,6 +273,9 @@ func c02Run(r *mon.Run) {
 			if i%8 == 2 {
 				c.N2 = 50
 			}
+			if i%12 == 10 {
+				c.N2 = rng.Range(1, 10) // N1 > N2 <= 10 with N1+N2 beyond the exhaustive set
+			}
 			if rng.Bool() {
 				c.T = make([]int, c.N1+c.N2)
 				for k := range c.T {
@@ -281,7 +284,7 @@ func c02Run(r *mon.Run) {
 			}
 			w.Hit("large-untied")
 		} else {
-			T, a := randomTieAlloc(rng, 1+rng.Intn(5))
+			T, a := randomTieAllocLim(rng, 1+rng.Intn(5), 50, 25)
 			c.T = T
 			c.N1 = sumInts(a)
 			c.N2 = sumInts(T) - c.N1
@@ -289,6 +292,7 @@ func c02Run(r *mon.Run) {
 				return
 			}
 			w.Hit("large-tied")
+			w.HitIf(c.N1 == 25 || c.N2 == 25, "tied-n-reaches-25")
 		}
 		max := c.N1 * c.N2
 		for k := 0; k < 40; k++ {
@@ -309,6 +313,112 @@ func c02Run(r *mon.Run) {
 			}
 			c.Us = append(c.Us, u)
 		}
+		// one ulp around a few jump points, far outside, and both zeros
+		for k := 0; k < 4; k++ {
+			j := float64(rng.Intn(2*max+1)) / 2
+			c.Us = append(c.Us, math.Nextafter(j, math.Inf(-1)), math.Nextafter(j, math.Inf(1)))
+		}
+		c.Us = append(c.Us, math.Copysign(0, -1), 0, -1e6, 1e9, float64(max)+1e6, math.Inf(1), math.Inf(-1))
+		c02Judge(w, c, false)
+		// the same sizes and query points with the tie vector permuted: a
+		// different distribution with its own reference; anything keyed on
+		// less than the whole vector (lengths, sums, hashes) mixes them up
+		if c.T != nil && len(c.T) > 2 {
+			for rep := 0; rep < 2; rep++ {
+				p := append([]int(nil), c.T...)
+				if rep == 0 {
+					p[0], p[len(p)-1] = p[len(p)-1], p[0]
+					p = append(p[1:], p[0]) // a rotation of the swapped vector
+				} else {
+					rng.ShuffleI(p)
+				}
+				w.Hit("permuted-tie-vector-same-sizes")
+				c02Judge(w, c02Case{N1: c.N1, N2: c.N2, T: p, Us: c.Us}, false)
+			}
+		}
+	})
+
+	// every tie vector with three groups at a few large sizes: thousands of
+	// distributions that agree in N1, N2 and the number of groups and differ
+	// only in the group sizes (including sizes above 31), all in one process
+	var three []c02Case
+	sizes := []int{34, 36, 40, 44, 47, 50}
+	if r.Quick {
+		sizes = []int{36, 50}
+	}
+	for _, N := range sizes {
+		n1 := N / 2
+		for a := 1; a <= N-2; a++ {
+			for b := 1; a+b <= N-1; b++ {
+				three = append(three, c02Case{N1: n1, N2: N - n1, T: []int{a, b, N - a - b}})
+			}
+		}
+	}
+	r.Parallel("three-groups-large", len(three), func(w *mon.W, i int) {
+		c := three[i]
+		w.Hit("three-groups-large")
+		max := c.N1 * c.N2
+		c.Us = []float64{float64(w.Rng.Intn(2*max+1)) / 2, float64(max) / 2, float64(max/2+w.Rng.Range(-20, 20)) / 1, float64(w.Rng.Intn(max+1)), 0, float64(max)}
 		c02Judge(w, c, false)
 	})
+
+	// the corners of the stated range, whatever the seed
+	corners := []c02Case{{N1: 50, N2: 50}, {N1: 50, N2: 1}, {N1: 1, N2: 50}, {N1: 50, N2: 10}, {N1: 10, N2: 50}, {N1: 49, N2: 50}}
+	for _, sz := range [][2]int{{25, 25}, {25, 1}, {1, 25}, {24, 25}} {
+		n := sz[0] + sz[1]
+		corners = append(corners,
+			c02Case{N1: sz[0], N2: sz[1], T: []int{n - 1, 1}}, c02Case{N1: sz[0], N2: sz[1], T: []int{1, n - 1}},
+			c02Case{N1: sz[0], N2: sz[1], T: c02Pairs(n)})
+	}
+	r.Parallel("corners", len(corners), func(w *mon.W, i int) {
+		c := corners[i]
+		w.Hit("corner-of-the-stated-range")
+		max := c.N1 * c.N2
+		for k := 0; k <= 2*max; k += 1 + max/40 {
+			c.Us = append(c.Us, float64(k)/2)
+		}
+		c.Us = append(c.Us, -0.5, 0, float64(max), float64(max)+0.5, float64(max)/2)
+		c02Judge(w, c, false)
+	})
+
+	// UDist is a distribution, not a test: the U-test's public limit
+	// variables must not change it
+	du, dt := stats.MannWhitneyExactLimit, stats.MannWhitneyTiesExactLimit
+	for _, lim := range [][2]int{{3, 3}, {0, 0}, {1000, 1000}} {
+		stats.MannWhitneyExactLimit, stats.MannWhitneyTiesExactLimit = lim[0], lim[1]
+		r.Parallel(fmt.Sprintf("under-limits(%d,%d)", lim[0], lim[1]), r.Pick(12, 60), func(w *mon.W, i int) {
+			rng := w.Rng
+			w.Hit("U-test-limit-variables-changed")
+			var c c02Case
+			if i%2 == 0 {
+				c.N1, c.N2 = rng.Range(4, 14), rng.Range(4, 14)
+			} else {
+				T, a := randomTieAllocLim(rng, 1+rng.Intn(5), 12, 12)
+				c.T, c.N1 = T, sumInts(a)
+				c.N2 = sumInts(T) - c.N1
+				if c.N1 < 1 || c.N2 < 1 {
+					return
+				}
+			}
+			max := c.N1 * c.N2
+			for k := 0; k < 24; k++ {
+				c.Us = append(c.Us, float64(rng.Intn(2*max+1))/2)
+			}
+			c.Us = append(c.Us, 0, float64(max))
+			c02Judge(w, c, false)
+		})
+	}
+	stats.MannWhitneyExactLimit, stats.MannWhitneyTiesExactLimit = du, dt
+}
+
+// c02Pairs is the tie vector 2,2,...,2(,1) of total n.
+func c02Pairs(n int) []int {
+	var T []int
+	for ; n >= 2; n -= 2 {
+		T = append(T, 2)
+	}
+	if n == 1 {
+		T = append(T, 1)
+	}
+	return T
 }
